@@ -583,7 +583,7 @@ def run_case(case: dict, seed: int) -> dict:
             if api == "cli":
                 return _run_cli(case, cfg, lay, supplied, placed, overlaps, legal, io, td, viol, count)
             if api == "hist":
-                return _run_history(case, cfg, lay, supplied, legal, td, viol, count)
+                return _run_history(case, cfg, lay, supplied, legal, td, viol, count, seed)
             if api in ("set", "setn"):
                 bimg = BootableImage.load_from_config(dict(cfg, init_offset=0), search_paths=[td])
                 image_full = bimg.export()
@@ -646,7 +646,7 @@ def run_case(case: dict, seed: int) -> dict:
         shutil.rmtree(td, ignore_errors=True)
 
 
-def _run_history(case: dict, cfg: dict, lay: BL.Layout, supplied: dict, legal: bool, td: str, viol: list, count: dict) -> dict:
+def _run_history(case: dict, cfg: dict, lay: BL.Layout, supplied: dict, legal: bool, td: str, viol: list, count: dict, seed: int = 0) -> dict:
     """A history of initial-offset requests on ONE live object (obtained from the configuration or from parse).
 
     After an accepted request the object has to be what a fresh object loaded with that initial offset is (model image,
@@ -700,12 +700,33 @@ def _run_history(case: dict, cfg: dict, lay: BL.Layout, supplied: dict, legal: b
     state = snapshot(bimg)
     for step, op in enumerate(case["ops"]):
         kind, val = op
-        req = lay.offsets[val] if kind == "setn" else int(val)
+        if kind == "repl":
+            # the content of one segment is replaced on the live object through the segment's own documented loader (an
+            # application that was rebuilt): afterwards the object has to be what a fresh object with the new content is
+            if val not in supplied or lay.excluded(val, cur):
+                continue
+            try:
+                data2, cfgval2, q2 = component(val, case["alt"][val], dict(case, sup=dict(case["sup"], **{val: case["alt"][val]})), td, seed)
+            except Unavailable:
+                count["history-replacement-unavailable"] = 1
+                break
+            if q2 != "valid":
+                count["history-replacement-not-valid"] = 1
+                break
+            req = cur
+        else:
+            req = lay.offsets[val] if kind == "setn" else int(val)
         eff = None if req < 0 else lay.round_init_offset(req)
         if eff is not None and case.get("src") == "parse" and eff < start:
             continue  # nothing in front of the parsed image's start is known to the object
         try:
-            if kind == "setn":
+            if kind == "repl":
+                bimg.get_segment(BootableImageSegment.from_label(val)).load_config({CFG_KEY.get(val, val): cfgval2}, search_paths=[td])
+                supplied = dict(supplied, **{val: data2})
+                cfg = dict(cfg, **{CFG_KEY.get(val, val): cfgval2})
+                fresh_cache.clear()
+                count["history-replacements"] = count.get("history-replacements", 0) + 1
+            elif kind == "setn":
                 bimg.set_init_offset(BootableImageSegment.from_label(val))
             else:
                 bimg.init_offset = req
@@ -737,7 +758,7 @@ def _run_history(case: dict, cfg: dict, lay: BL.Layout, supplied: dict, legal: b
             if legal:
                 viol.append((C, "legal-request-refused", f"step {step} {op}: {refused}"[:200]))
             break
-        move = "lowered" if eff < cur else ("raised" if eff > cur else "same")
+        move = f"replaced-{val}" if kind == "repl" else ("lowered" if eff < cur else ("raised" if eff > cur else "same"))
         cur = eff
         state = after
         # one defect, one record: the first thing that is wrong after this move, then the history ends
@@ -1237,6 +1258,18 @@ def enumerate_cases(tier: str, triples: list, reps: dict) -> dict:
                 fam_cases["hist"].append(dict(T, sup=sup, io=s0, api="hist", ops=ops))
             ops = [["set", big]] + [x for o in stat if o for x in (["set", o], ["set", -1 if o % 2048 else big])] + [["set", 0]]
             fam_cases["hist"].append(dict(T, sup=sup, io=0, api="hist", src="parse", ops=ops))
+            # ... and histories in which the application container (and the floating set behind it) is replaced on the live
+            # object by one of another size class: whatever the object worked out for the old content must not survive
+            for tgt in [app] + floating:
+                kinds2 = [k for k in app_kinds(tgt, f, r, m, sizes="thin" if quick else True) if k != sup.get(tgt)]
+                d0 = sup.get(tgt)
+                if isinstance(d0, list) and len(d0) == 3 and isinstance(d0[2], int):
+                    # a payload several alignment units longer, so that everything placed behind this container has to move
+                    kinds2 = [[d0[0], d0[1], d0[2] + 0x1400]] + kinds2
+                for k2 in (kinds2[:2] if quick else kinds2):
+                    for s0 in ([0] if quick else sorted({0, lay.offsets[app]})):
+                        fam_cases["hist"].append(dict(T, sup=sup, io=s0, api="hist", alt={tgt: k2},
+                                                      ops=[["repl", tgt], ["set", big], ["set", s0], ["repl", tgt]]))
             # CLI
             sup = {n: default_spec(n, f, r, m) for n in lay.order}
             for io in [0] + lay.start_offsets():
